@@ -336,6 +336,23 @@ def run_case(case):
                         add("rows", "stored superrun re-read differs from the concatenated subruns", where="stored")
                     for kind, text in bookkeeping_errors(chunks2, case, nlevels)[:2]:
                         add(kind, text, where="stored")
+                    # a time range that starts inside a row: the loader moves the cut to the start of that row, the
+                    # recorded spans must move with it (rows stay inside the span recorded for their run)
+                    if len(ref) >= 2:
+                        mid = ref[len(ref) // 2]
+                        lo, hi = int(mid["time"]) + 1, int(ref["endtime"].max())
+                        if int(mid["endtime"]) > lo:
+                            with common.quiet():
+                                chunks3 = list(st2.get_iter("_sup", tgt, time_range=(lo, hi), time_selection="touching", progress_bar=False))
+                            cnt["time_range_reads"] = 1
+                            for c in chunks3:
+                                sr = c.subruns or {}
+                                for row in c.data:
+                                    rid = str((int(row["v0"]) - 1000 * nlevels) // 100)
+                                    if rid in sr and not (sr[rid]["start"] <= row["time"] and row["endtime"] <= sr[rid]["end"]):
+                                        add("attribution", f"time-range read ({lo},{hi}): row [{int(row['time'])},{int(row['endtime'])}) of run "
+                                                           f"{rid} lies outside the span {sr[rid]} recorded by chunk [{c.start},{c.end})", where="stored-range")
+                                        break
                 except Exception as e:  # noqa: BLE001
                     add("exception", f"re-reading the stored superrun failed: {e!r}", e, where="stored")
                 # redefinition: another subrun list must not see the stored data
